@@ -284,7 +284,9 @@ func (dec *Decoder) More() bool {
 			}
 			dec.err = transformSyntacticError(err)
 		}
-		return dec.err != io.EOF
+		// Like the original decoder, report false when the input ends,
+		// whether cleanly or in the middle of an array or object.
+		return dec.err != io.EOF && dec.err.Error() != errUnexpectedEnd.Error()
 	}
 	return k != ']' && k != '}'
 }
